@@ -3,6 +3,7 @@ import time
 
 import json
 
+import codecseq
 import wire
 from common import Scratch, Verdict, build_harness, harness_json, log, marker_json, require_ok, run_tlc, seed, write_evidence
 
@@ -69,6 +70,15 @@ def run_wire_property(prop, tier, rule, level="exploration", extra=None):
         if others:
             log("NOTE this run also found violations of %s (reported by their own checks)" % ",".join(sorted(others)))
         more = extra(s, h, v, tier) if extra else {}
+        cs = None
+        if prop in ("C01", "C03", "C05"):
+            # the codec used more than once: every history of calls (some made to fail, some results kept) - CodecSeq.tla
+            cs = codecseq.run_codecseq(s, h, tier, prop)
+            for x in cs["violations"]:
+                v.violation(x["sig"], x["detail"], x["replay"])
+            more.setdefault("extra", {})["codec_histories"] = {k: cs[k] for k in cs if k != "violations"}
+            more["evaluations"] = more.get("evaluations", 0) + cs["histories"]
+            more["distinct"] = more.get("distinct", 0) + cs["distinct_prefixes"]
         log("%s: %d vectors checked through every codec path, %d violations attributed to %s" % (prop, n, mine, prop))
         unlisted = v.finish()
         evals = rep["evaluations"] + (hrep["evaluations"] if hrep else 0) + more.get("evaluations", 0)
